@@ -286,7 +286,7 @@ RECURSIVE Ev(_, _, _), EvList(_, _, _), EvChain(_, _, _, _, _), CallValue(_, _, 
           ApplyFilter(_, _, _, _, _, _), ApplyTest(_, _, _, _, _), Ex(_, _, _), ExSeq(_, _, _),
           RunLoop(_, _, _, _, _, _, _), InvokeMacro(_, _, _, _, _), RenderBlockRef(_, _, _),
           MakeModule(_, _, _, _), RenderTemplateBody(_, _, _, _), BindParams(_, _, _, _, _, _),
-          FilterItems(_, _, _, _, _, _)
+          FilterItems(_, _, _, _, _, _), LazyFilter(_, _, _, _, _, _)
 
 \* evaluate a sequence of expressions left to right
 EvList(es, s, E) ==
@@ -590,6 +590,7 @@ InvokeMacro(m, args, kw, s, E) ==
        ELSE R(VStr(r.out, DA(s, E.cx)), [r EXCEPT !.out = s.out, !.flow = ""])
 
 (* -- filters (the subset the interpreter models exactly) ------------------------------------ *)
+LazyFilters == {"map", "select", "reject", "selectattr", "rejectattr"}
 RECURSIVE SumInts(_), InsertSorted(_, _), SortInts(_), JoinWith(_, _, _, _), RevSeq(_)
 SumInts(xs) == IF xs = <<>> THEN 0 ELSE NumOf(Head(xs)) + SumInts(Tail(xs))
 RevSeq(xs) == IF xs = <<>> THEN <<>> ELSE Append(RevSeq(Tail(xs)), Head(xs))
@@ -626,6 +627,7 @@ JoinWith(parts, sep, i, acc) ==
 
 IterItems(v) ==
     CASE v.t = "list" -> [ok |-> TRUE, v |-> v.v, err |-> ""]
+      [] v.t = "lazy" -> IF v.err = "" THEN [ok |-> TRUE, v |-> v.v, err |-> ""] ELSE Err(v.err)   \* consumed completely
       [] v.t = "dict" -> [ok |-> TRUE, v |-> v.k, err |-> ""]
       [] v.t = "undef" -> IF UKof(v, UK) = "strict" THEN Err("UndefinedError") ELSE [ok |-> TRUE, v |-> <<>>, err |-> ""]
       [] v.t \in {"int", "bool", "none", "float"} -> Err("TypeError")
@@ -633,7 +635,19 @@ IterItems(v) ==
       [] OTHER -> Err("EXCLUDED")
 
 ApplyFilter(n, v, args, kw, s, E) ==
-    CASE n = "safe" ->
+    CASE n \in LazyFilters -> LazyFilter(n, v, args, kw, s, E)
+      \* a consumer that reads a lazy stream to its end meets the stream's error after converting the items before
+      \* it; when those conversions (or the separator's) would fail too, which error comes first depends on the
+      \* filter's internals and is not judged
+      [] v.t = "lazy" /\ v.err # "" /\ n \in {"list", "join", "sum"} ->
+           IF Bad(ApplyFilter(n, VList(v.v), args, kw, s, E)) THEN Fail(s, "EXCLUDED") ELSE Fail(s, v.err)
+      [] v.t = "lazy" /\ n = "sum" -> ApplyFilter(n, VList(v.v), args, kw, s, E)
+      [] v.t = "lazy" /\ n = "first" ->          \* asks for one item only
+           IF v.v # <<>> THEN R(v.v[1], s)
+           ELSE IF v.err # "" THEN Fail(s, v.err)
+           ELSE R(VUndef([k |-> "hint", n |-> "No first item, sequence was empty."]), s)
+      [] v.t = "lazy" /\ n \notin {"list", "join", "default", "d"} -> Fail(s, "EXCLUDED")
+      [] n = "safe" ->
            LET t == ToStr(v, UK) IN IF ~t.ok THEN Fail(s, t.err) ELSE R(VStr(t.v.s, TRUE), s)
       [] n \in {"e", "escape"} -> Lift(Escape(v, UK), s)
       [] n = "string" -> LET t == ToStr(v, UK) IN
@@ -769,7 +783,8 @@ ApplyFilter(n, v, args, kw, s, E) ==
       [] OTHER -> Fail(s, "EXCLUDED")
 
 ApplyTest(n, v, args, s, E) ==
-    CASE n = "defined" -> R(VBool(v.t # "undef"), s)
+    CASE v.t = "lazy" \/ (\E i \in 1..Len(args) : args[i].t = "lazy") -> Fail(s, "EXCLUDED")
+      [] n = "defined" -> R(VBool(v.t # "undef"), s)
       [] n = "undefined" -> R(VBool(v.t = "undef"), s)
       [] n = "none" -> R(VBool(v.t = "none"), s)
       [] n = "boolean" -> R(VBool(v.t = "bool"), s)
@@ -808,6 +823,72 @@ ApplyTest(n, v, args, s, E) ==
                 IN Lift(CmpOp(op, v, args[1], UK), s)
       [] OTHER -> Fail(s, "EXCLUDED")
 
+(* -- lazy filters: map / select / reject / selectattr / rejectattr --------------------------- *)
+\* They return iterators: nothing is evaluated until a consumer asks for an item, and a failing item ends the
+\* stream with that error after the items before it.  Value: [t |-> "lazy", v |-> the items the stream yields,
+\* err |-> "" or the class of the error that follows them].  A consumer that reads everything (list, join, sum,
+\* a for loop) meets the error; `first` only asks for one item.  Only pure item functions are modelled (item /
+\* attribute lookups, the filters and tests of this module on data values): an item function that would change
+\* the interpreter state (the interaction log) makes the stream EXCLUDED from that item on.
+\* (In async mode the same filters return async iterators, which only the consumers documented to accept them
+\* can read; the generators only write those - see the known finding F23 for the others.)
+VLazy(items, err) == [t |-> "lazy", v |-> items, err |-> err]
+AttrNames == {"a", "b", "c", "n", "k", "x", "y", "zz", "ra", "rk", "rp", "ri"}
+AttrOk(a) == a.t = "int" \/ (a.t = "str" /\ KeyName(a) \in AttrNames)
+PureFilters == {"int", "float", "string", "abs", "length", "count", "first", "last", "e", "escape", "safe", "default", "d",
+                "list", "sum", "join", "round", "min", "max", "sort", "attr"}
+\* make_attrgetter with a one-part path: environment.getitem, an undefined result replaced by a default other than None
+AttrPart(s, item, a, dflt) ==
+    LET r == GetItem(s, item, a) IN
+    IF Bad(r) THEN r ELSE IF dflt.t # "none" /\ r.v.t = "undef" THEN R(dflt, s) ELSE r
+
+MapFn(item, args, kw, s, E) ==
+    IF args = <<>> /\ KwGet(kw, "attribute").found THEN
+        IF \E i \in 1..Len(kw.n) : kw.n[i] \notin {"attribute", "default"} THEN Fail(s, "EXCLUDED")
+        ELSE LET a == KwGet(kw, "attribute").v
+                 d == IF KwGet(kw, "default").found THEN KwGet(kw, "default").v ELSE VNone IN
+             IF ~AttrOk(a) THEN Fail(s, "EXCLUDED") ELSE AttrPart(s, item, a, d)
+    ELSE IF args = <<>> THEN Fail(s, "EXCLUDED")
+    ELSE IF KeyName(args[1]) \notin PureFilters THEN Fail(s, "EXCLUDED")
+    ELSE ApplyFilter(KeyName(args[1]), item, Tail(args), kw, s, E)
+
+\* does the item pass?  select / reject: the test (or the item's truth); selectattr / rejectattr: the same on an attribute
+SelFn(n, item, args, kw, s, E) ==
+    LET attrMode == n \in {"selectattr", "rejectattr"}
+        off == IF attrMode THEN 1 ELSE 0 IN
+    IF kw.n # <<>> \/ (attrMode /\ args = <<>>) THEN Fail(s, "EXCLUDED")
+    ELSE IF attrMode /\ ~AttrOk(args[1]) THEN Fail(s, "EXCLUDED")
+    ELSE LET tv == IF attrMode THEN AttrPart(s, item, args[1], VNone) ELSE R(item, s) IN
+         IF Bad(tv) THEN tv
+         ELSE LET b == IF Len(args) > off
+                       THEN (IF KeyName(args[off + 1]) = "?" THEN Fail(s, "EXCLUDED")
+                             ELSE ApplyTest(KeyName(args[off + 1]), tv.v, SubSeq(args, off + 2, Len(args)), tv.S, E))
+                       ELSE TruthR(tv.v, tv.S) IN
+              IF Bad(b) THEN b ELSE R(VBool(b.v.b = (n \in {"select", "selectattr"})), b.S)
+
+RECURSIVE LazyRun(_, _, _, _, _, _, _, _)
+LazyRun(n, items, i, args, kw, s, E, acc) ==
+    IF i > Len(items) THEN VLazy(acc, "")
+    ELSE LET r == IF n = "map" THEN MapFn(items[i], args, kw, s, E) ELSE SelFn(n, items[i], args, kw, s, E) IN
+         IF Bad(r) THEN VLazy(acc, r.S.err)
+         ELSE IF r.S # s THEN VLazy(acc, "EXCLUDED")
+         ELSE LazyRun(n, items, i + 1, args, kw, s, E,
+                      IF n = "map" THEN Append(acc, r.v) ELSE IF r.v.b THEN Append(acc, items[i]) ELSE acc)
+
+LazyFilter(n, v, args, kw, s, E) ==
+    \* `if value:` and then `for item in value`, both when the first item is asked for
+    IF v.t = "iterfault" THEN Fail(s, "EXCLUDED")
+    ELSE IF v.t = "lazy" THEN                \* an iterator object is true
+        LET out == LazyRun(n, v.v, 1, args, kw, s, E, <<>>) IN
+        R(IF out.err = "" THEN VLazy(out.v, v.err) ELSE out, s)
+    ELSE LET t == TruthR(v, s) IN
+         IF Bad(t) THEN R(VLazy(<<>>, t.S.err), s)
+         ELSE IF t.S # s THEN Fail(s, "EXCLUDED")
+         ELSE IF ~t.v.b THEN R(VLazy(<<>>, ""), s)
+         ELSE LET it == IterItems(v) IN
+              IF ~it.ok THEN R(VLazy(<<>>, it.err), s)
+              ELSE R(LazyRun(n, it.v, 1, args, kw, s, E, <<>>), s)
+
 (* ================================================================================= *)
 (* Statements                                                                        *)
 (* ================================================================================= *)
@@ -822,6 +903,9 @@ Suppressed(s, E) == E.roc /\ s.cx[E.cx].par # ""
 Assign(s, E, n, v, exportable) ==
     LET s1 == SetVar(s, Head(E.sc), n, v) IN
     IF E.top /\ exportable THEN [s1 EXCEPT !.cx[E.cx].exported = @ \cup {n}] ELSE s1
+
+\* a top-level import takes the names it binds out of the module's exports
+Unexport(s, E, names) == IF E.top /\ s.err = "" THEN [s EXCEPT !.cx[E.cx].exported = @ \ names] ELSE s
 
 RECURSIVE AssignTarget(_, _, _, _)
 \* target: [k |-> "name", n, exp] or [k |-> "tuple", items]
@@ -873,6 +957,9 @@ FilterItems(node, items, i, s, E, acc) ==
 RunLoop(node, itv, depth0, s, E, isRec, inner) ==
     \* C38: an iterable whose k-th step raises: the items before it are visited normally; unless the loop is
     \* left by break first, asking for step k ends the render with that exception
+    \* (a lazy stream that ends in an error raises it when the loop - or loop.last / loop.length looking ahead -
+    \*  asks for that item; only error-free streams are modelled as loop iterables)
+    IF itv.t = "lazy" /\ itv.err # "" THEN Fail(s, "EXCLUDED").S ELSE
     LET faulty == itv.t = "iterfault"
         it == IF faulty THEN [ok |-> TRUE, v |-> SubSeq(itv.v, 1, IF itv.k - 1 < Len(itv.v) THEN itv.k - 1 ELSE Len(itv.v)), err |-> ""]
               ELSE IterItems(itv) IN
@@ -1144,8 +1231,9 @@ Ex(st, s, E) ==
                               ELSE DefaultModule(p.n, s1, E) IN
                      IF Bad(m) THEN m.S
                      ELSE IF st.k = "import" THEN
-                          \* imported names are assigned but never exported
-                          SetVar(m.S, Head(E.sc), st.target, m.v)
+                          \* imported names are assigned but never exported; at the top level a name that an
+                          \* earlier assignment exported stops being exported (the binding is the import's now)
+                          Unexport(SetVar(m.S, Head(E.sc), st.target, m.v), E, {st.target})
                      ELSE LET RECURSIVE Go(_, _)
                               Go(i, ss) ==
                                 IF i > Len(st.names) THEN ss
@@ -1153,7 +1241,9 @@ Ex(st, s, E) ==
                                          val == IF MapHas(m.v.attrs, nm.n) THEN m.v.attrs[nm.n]
                                                 ELSE VUndef([k |-> "hint", n |-> "does not export " \o nm.n]) IN
                                      Go(i + 1, SetVar(ss, Head(E.sc), nm.as, val))
-                          IN Go(1, m.S)
+                          \* it is the local names (the aliases) that stop being exported, not the names they have in
+                          \* the imported template
+                          IN Unexport(Go(1, m.S), E, {st.names[i].as : i \in 1..Len(st.names)})
       [] OTHER -> Fail(s, "EXCLUDED").S
 
 (* ================================================================================= *)
